@@ -82,7 +82,7 @@ Definition s_step1 (d : items) (x : op) : out * items :=
            | Some p, Some _ => (RNone, s_insert_after p r (s_remove k d))
            | _, _ => (RErr KeyError, d)
            end
-  | OSort _ => (RNone, sort_by (fun p => lower (fst p)) d)
+  | OSort _ sk => (RNone, sort_by (fun p => sort_key lower sk (fst p)) d)
   | ODump _ => (RStr (s_dump d), d)
   | OCopy _ | OReparse _ => (RNone, d)
   end.
